@@ -507,7 +507,7 @@ func (s *StreamOpenAck) Encode() []byte {
 
 // DecodeStreamOpenAck deserializes StreamOpenAck from bytes.
 func DecodeStreamOpenAck(buf []byte) (*StreamOpenAck, error) {
-	if len(buf) < 12+EphemeralKeySize { // 8 + 1 + 1 + 2 + 32 minimum (empty addr + key)
+	if len(buf) < 11+EphemeralKeySize { // 8 + 1 + 2 + 32 minimum (empty addr + key)
 		return nil, fmt.Errorf("%w: StreamOpenAck too short", ErrInvalidFrame)
 	}
 
@@ -1553,7 +1553,7 @@ func (u *UDPOpenAck) Encode() []byte {
 
 // DecodeUDPOpenAck deserializes UDPOpenAck from bytes.
 func DecodeUDPOpenAck(buf []byte) (*UDPOpenAck, error) {
-	if len(buf) < 12+EphemeralKeySize { // 8 + 1 + 1 + 2 + 32 minimum
+	if len(buf) < 11+EphemeralKeySize { // 8 + 1 + 2 + 32 minimum (empty addr + key)
 		return nil, fmt.Errorf("%w: UDPOpenAck too short", ErrInvalidFrame)
 	}
 
